@@ -147,6 +147,56 @@ func c05sessionCase(c *runner.Ctx, i int) {
 				return true
 			}
 		}
+		// protocol discovery (ProtoVersion left at 0): the first connection attempt is answered with a protocol ERROR
+		// whose message the driver mines for the version to use; the message is the peer's to choose
+		if !heartbeat && r.Intn(5) == 0 {
+			cfg.ProtoVersion = 0
+			greatest := []string{"0", "1", "2", "3", "4", "5", "6", "99", "127", "128", "255", "256", "65536", "99999999999999999999", "-1", "4 "}[r.Intn(16)]
+			msg := []string{
+				"Invalid or unsupported protocol version (4); the lowest supported version is 3 and the greatest is " + greatest,
+				"Invalid or unsupported protocol version (4); supported versions are (3/v3, 4/v4, 5/v5-beta)",
+				"Invalid or unsupported protocol version (4); supported versions are (5/v5-beta)",
+				"Invalid or unsupported protocol version (4); supported versions are ()",
+				"Invalid or unsupported protocol version (4); supported versions are (5)",
+				"Invalid or unsupported protocol version (4); supported versions are (v5)",
+				"Invalid or unsupported protocol version (4); supported versions are (3,4,5)",
+				"Invalid or unsupported protocol version (4); supported versions are (" + greatest + "/v" + greatest + ")",
+				"supported versions are (",
+				"the lowest supported version is " + greatest + " and the greatest is " + greatest,
+			}[r.Intn(10)]
+			onStream0 := r.Intn(2) == 0
+			var answered int32
+			for _, n := range cl.Nodes {
+				n.OnHandshake = func(conn *fakenode.ServerConn, op byte) bool {
+					if (op != cqlref.OpOptions && op != cqlref.OpStartup) || conn.Version != 4 || atomic.AddInt32(&answered, 1) > 2 {
+						return false
+					}
+					reqs := conn.AllRequests()
+					req := reqs[len(reqs)-1]
+					stream := req.Header.Stream
+					if onStream0 {
+						stream = 0
+					}
+					f, _ := cqlref.BuildFrame(4, stream, cqlref.OpError, nil, cqlref.BodyError(4, &cqlref.ErrSpec{Code: 0x000A, Message: msg}), nil)
+					conn.WriteReply(req, f)
+					return true
+				}
+			}
+			key = fmt.Sprintf("protocol discovery answered with the protocol error %q (on stream 0: %v)", msg, onStream0)
+			c.Add("protocol_discovery_errors", 1)
+			c.Eval(runner.H("c05sess-disc", msg, onStream0), true)
+			var sess *gocql.Session
+			if pan := c05call(c, "CreateSession", func() { sess, _ = cfg.CreateSession() }); pan != nil {
+				report("CreateSession", pan)
+			}
+			if sess != nil {
+				if pan := c05call(c, "Query.Exec", func() { sess.Query("LIST after discovery").Exec() }); pan != nil {
+					report("Query.Exec", pan)
+				}
+				c05call(c, "Session.Close", sess.Close)
+			}
+			break
+		}
 		key = fmt.Sprintf("v%d handshake step %#x on connections >= %d answered with kind %d (mutated=%v, auth=%v, as reply to the heartbeat=%v)", version, step, connIdx, sc.kind, sc.mutated, useAuth, heartbeat)
 		c.Add("unexpected_in_handshake", 1)
 		c.Eval(runner.H("c05sess-hs", version, step, sc.kind, sc.mutated, useAuth, heartbeat), true)
